@@ -435,7 +435,9 @@ fn decoder_history(rng: &mut Rng, out: &mut CaseOut) {
                 );
                 return;
             }
-            if let Ok(a) = &on_reused {
+            // (with shards whose as_ref() changes between calls "the shard
+            // that was given" is not defined: only fresh-vs-reused is judged)
+            if let (Ok(a), None) = (&on_reused, shifty) {
                 let want = expected(&originals, &orig_idx);
                 if a.iter != want {
                     out.violate(
